@@ -234,7 +234,9 @@ def vc_grade(H):
             if not ok:
                 return r
             ks, vs = r[2], r[3]
-            okc = isinstance(ks, CompSeq) and isinstance(vs, CompSeq) and ks.base is vs.base and ks.part == 'keys' \
+            ctx.oblige('frame (C09): the result does not share its coefficient storage with the operand',
+                       not (isinstance(vs, SymSeq) and not isinstance(vs, CompSeq) and getattr(vs, 'getter', None) == me.val))
+            okc = isinstance(ks, CompSeq) and isinstance(vs, CompSeq) and getattr(ks, 'base', None) is getattr(vs, 'base', 0) and ks.part == 'keys' \
                 and vs.part == 'values' and hasattr(ks.base.src, 'grades')
             ctx.oblige('post: keys and values are the two halves of one selection (aligned)', bool(okc))
             if not okc:
@@ -776,3 +778,34 @@ def vc_call(H):
                    'result keys are the keys in order', bool(ok), meta={'got': repr(calls)})
         return r
     H.run_paths(fl, '', body4)
+
+
+def vc_new_graded_reordered(H):
+    """graded mode, complete grades supplied in a non-canonical order: either rejected or stored blade-correctly
+    (never with the values attached to other blades)."""
+    fuc = H.fn(MV, 'MultiVector.__new__')
+    from collections.abc import Mapping
+    for d, keys in ((2, (2, 1)), (3, (4, 1, 2)), (3, (6, 3, 5))):
+        def body(ctx, d=d, keys=keys):
+            alg, names, canon2bin, ifg = _concrete_algebra(d, True, lambda n: 0)
+            made = []
+            fk = sym('fromkeysvalues', callable_result=lambda i, m, a, k: made.append((a, k)) or ('MV', a, k))
+            cls = sym('cls', attrs={'fromkeysvalues': fk})
+            vals = [sym(f'v{i}') for i in range(len(keys))]
+            try:
+                H.closure(Interp(ctx, source_name=MV), fuc, {'Mapping': Mapping, 'Symbol': sym('Symbol'), 'sympify': sym('sympify')})(cls, alg, values=list(vals), keys=keys)
+                raised = None
+            except (TypeError, ValueError, KeyError) as e:
+                raised = e
+            if raised is None and len(made) == 1:
+                a, k = made[0]
+                a = list(a) + [k.get(x) for x in ('keys', 'values') if x in k]
+                got = dict(zip(a[1], a[2]))
+                ok = set(got) == set(keys) and all(same(got[kk], v) for kk, v in zip(keys, vals))
+            else:
+                ok = raised is not None
+            ctx.oblige('new[graded, reordered complete keys]: rejected, or every coefficient stays on the blade it was supplied for', bool(ok),
+                       meta={'made': repr(made)[:300]})
+            if raised is not None:
+                ctx.notes.append('expected-raise'); raise raised
+        H.run_paths(fuc, f'd={d},graded,keys={keys}', body)
